@@ -104,7 +104,7 @@ pub fn assemble(p: &Program, mode: Mode, env: &Env) -> (Vec<LT>, Goal<U, E>) {
         Mode::Bfs => p.body.clone(),
         Mode::Dfs => vec![AGoal::Dfs(p.body.clone())],
     };
-    let body_goals: Vec<Goal<U, E>> = body.iter().map(|g| build::build_goal::<Goal<U, E>>(g, env)).collect();
+    let body_goals: Vec<Goal<U, E>> = build::build_list::<Goal<U, E>>(&body, env);
     let q = LTerm::var("__query__");
     let goal: Goal<U, E> = Fresh::new(
         vec![q.clone()],
